@@ -79,6 +79,35 @@ def dumps_nomemo(obj, proto):
     return f.getvalue()
 
 
+def differ_only_in_zero_sign(a, b):
+    """Do two pickles consist of the same opcode stream except that some
+    float arguments are 0.0 in one and -0.0 in the other?  (finding F35)"""
+    import math
+    import pickletools
+    try:
+        oa = [(o.name, arg) for o, arg, _ in pickletools.genops(a)]
+        ob = [(o.name, arg) for o, arg, _ in pickletools.genops(b)]
+    except Exception:
+        return False
+    if len(oa) != len(ob):
+        return False
+    seen = False
+    for (na, xa), (nb, xb) in zip(oa, ob):
+        if na != nb:
+            return False
+        if isinstance(xa, float) and isinstance(xb, float) and \
+                xa == 0.0 and xb == 0.0:
+            if math.copysign(1, xa) != math.copysign(1, xb):
+                seen = True
+            continue
+        if isinstance(xa, float) and isinstance(xb, float) and \
+                xa != xa and xb != xb:
+            continue
+        if xa != xb:
+            return False
+    return seen
+
+
 def state_form(t, is_tree):
     st = t.__getstate__()
     if is_tree:
@@ -373,6 +402,9 @@ def run_case(fam, kind, rng, rec, ci):
             if dumps_nomemo(c, proto) == dumps_nomemo(p, proto):
                 # identical except for pickle memoisation
                 d['finding'] = 'F13'
+            elif fam.vc == 'F' and differ_only_in_zero_sign(
+                    dumps_nomemo(c, proto), dumps_nomemo(p, proto)):
+                d['finding'] = 'F35'
             rec.violation('c-and-python-pickles-differ', impl='c-vs-py',
                           proto=proto, len_c=len(dc), len_py=len(dp),
                           memo_only='finding' in d, **dict(desc, **d))
